@@ -86,3 +86,8 @@ claim("C15",
       "exhaustive enumeration of a finite scene family rendered by the real PPU, compared pixel by pixel with a reference DMG compositor",
       "Every scene of a union of complete products is written through the Mapper with the LCD off, rendered by one frame of real PPU cycles and compared pixel by pixel (160x144 RGBA) with the reference composition: background/window product (tile map x addressing mode x SCX x SCY x window off or WX x WY x window map x palettes); single-object product (X at every clipping amount at the left/right edges, Y at every clipping amount at the top/bottom edges, 4 flips, both palettes, both priorities); pairs of overlapping objects (dx, dy in {-7..7} classes x priority/palette combinations, OAM in X order); ten objects on a line. Tile data is one of three fixed sets of 384 distinct patterns (VERIF_SEED selects the set).",
       "Trusted: ref/render.go (Pan Docs tile data, OAM attributes, priorities). The scene family is a stated finite sub-domain of 'all scenes'; the preconditions of the statement (8x8 objects, <= 10 per line, X-ordered OAM, WX 7-166, constant scene) are respected.")
+
+claim("C16",
+      "exhaustive enumeration of DMA source pages, restart cycles and source-rewrite cycles on the real Mapper/OAM with every cycle of every transfer observed",
+      "Every source page 00-F1 (cartridge RAM enabled and disabled) is transferred on an MBC1+RAM cartridge whose ROM, VRAM, cartridge RAM and WRAM hold position-dependent bytes: after every machine cycle FE00, FE9F, FEA0 and FEFF must read FF until the transfer completes, completion must come within 162 cycles, and OAM must then equal the 160 source bytes (E0-F1 through the work-RAM mirror). A second FF46 write is issued after every cycle 1-162 (page pairs from {00,80,C0,DF,E0,F1}), and one source byte is rewritten after every cycle 1-165 for six byte indices, where OAM must hold the byte as it was when copied.",
+      "Completion is observed through FEA0. A source rewrite within one cycle of the byte's copy cycle accepts either value.")
